@@ -3,6 +3,51 @@ from .runner import M
 OFF = "src/allmydata/immutable/offloaded.py"
 UP = "src/allmydata/immutable/upload.py"
 
+# -- C44.13: EncryptAnUploadable.read_encrypted / _read_encrypted (the _Accum + until(action, condition) chain) rewritten
+# as an @defer.inlineCallbacks loop; EXIT is the loop's exit test, DEC what the byte counter is decremented by
+OLD_READ_LOOP = '    def read_encrypted(self, length, hash_only):\n        # make sure our parameters have been set up first\n        d = self.get_all_encoding_parameters()\n        # and size\n        d.addCallback(lambda ignored: self.get_size())\n        d.addCallback(lambda ignored: self._get_encryptor())\n\n        accum = _Accum(length)\n\n        def action():\n            """\n            Read some bytes into the accumulator.\n            """\n            return self._read_encrypted(accum, hash_only)\n\n        def condition():\n            """\n            Check to see if the accumulator has all the data.\n            """\n            return accum.remaining == 0\n\n        d.addCallback(lambda ignored: until(action, condition))\n        d.addCallback(lambda ignored: accum.ciphertext)\n        return d\n\n    def _read_encrypted(self,\n                        ciphertext_accum,  # type: _Accum\n                        hash_only,         # type: bool\n    ):\n        # type: (...) -> defer.Deferred\n        """\n        Read the next chunk of plaintext, encrypt it, and extend the accumulator\n        with the resulting ciphertext.\n        """\n        # tolerate large length= values without consuming a lot of RAM by\n        # reading just a chunk (say 50kB) at a time. This only really matters\n        # when hash_only==True (i.e. resuming an interrupted upload), since\n        # that\'s the case where we will be skipping over a lot of data.\n        size = min(ciphertext_accum.remaining, self.CHUNKSIZE)\n\n        # read a chunk of plaintext..\n        d = defer.maybeDeferred(self.original.read, size)\n        def _good(plaintext):\n            # and encrypt it..\n            # o/\' over the fields we go, hashing all the way, sHA! sHA! sHA! o/\'\n            ct = self._hash_and_encrypt_plaintext(plaintext, hash_only)\n            # Intentionally tell the accumulator about the expected size, not\n            # the actual size.  If we run out of data we still want remaining\n            # to drop otherwise it will never reach 0 and the loop will never\n            # end.\n            ciphertext_accum.extend(size, ct)\n        d.addCallback(_good)\n        return d\n'
+
+IC_READ_LOOP = (
+    "    @defer.inlineCallbacks\n"
+    "    def read_encrypted(self, length, hash_only):\n"
+    "        yield self.get_all_encoding_parameters()\n"
+    "        yield self.get_size()\n"
+    "        yield self._get_encryptor()\n"
+    "        ciphertext = []\n"
+    "        remaining = length\n"
+    "        while True:\n"
+    "            size = min(remaining, self.CHUNKSIZE)\n"
+    "            ct = yield self._read_encrypted(size, hash_only)\n"
+    "            ciphertext.extend(ct)\n"
+    "            remaining -= %(DEC)s\n"
+    "            if %(EXIT)s:\n"
+    "                break\n"
+    "        return ciphertext\n"
+    "\n"
+    "    def _read_encrypted(self, size, hash_only):\n"
+    "        d = defer.maybeDeferred(self.original.read, size)\n"
+    "        d.addCallback(self._hash_and_encrypt_plaintext, hash_only)\n"
+    "        return d\n")
+
+# the same refactor with the helper inlined into the generator body; EOF is what the loop looks at to stop early
+IC_READ_LOOP_INLINED = (
+    "    @defer.inlineCallbacks\n"
+    "    def read_encrypted(self, length, hash_only):\n"
+    "        yield self.get_all_encoding_parameters()\n"
+    "        yield self.get_size()\n"
+    "        yield self._get_encryptor()\n"
+    "        ciphertext = []\n"
+    "        remaining = length\n"
+    "        while remaining:\n"
+    "            size = min(remaining, self.CHUNKSIZE)\n"
+    "            plaintext = yield defer.maybeDeferred(self.original.read, size)\n"
+    "            ct = self._hash_and_encrypt_plaintext(plaintext, hash_only)\n"
+    "            if not %(EOF)s:\n"
+    "                break\n"
+    "            ciphertext.extend(ct)\n"
+    "            remaining -= size\n"
+    "        return ciphertext\n")
+
 MUTANTS = [
     # -- C44.1 resume offset
     M("have-starts-at-zero", OFF,
@@ -502,6 +547,32 @@ MUTANTS = [
       "        c = self.chk_checker(sb.get_servers_for_psi, storage_index, lp2)\n        d = c.check()\n",
       "        checker = self.chk_checker(sb.get_servers_for_psi, storage_index, lp2)\n        c = checker\n        d = c.check()\n",
       None),
+    # -- C44.13 the chunked read loop consumes the whole requested length
+    M("loop-ic-stops-on-empty-ciphertext", UP, OLD_READ_LOOP,
+      IC_READ_LOOP % {"DEC": "size", "EXIT": "remaining == 0 or not ct"}, "C44.13"),
+    M("loop-ic-counts-remainder-when-nothing-produced", UP, OLD_READ_LOOP,
+      IC_READ_LOOP % {"DEC": "size if ct else remaining", "EXIT": "remaining == 0"}, "C44.13"),
+    M("loop-ic-inlined-stops-on-empty-ciphertext", UP, OLD_READ_LOOP, IC_READ_LOOP_INLINED % {"EOF": "ct"}, "C44.13"),
+    M("until-condition-looks-at-ciphertext", UP,
+      "            return accum.remaining == 0\n", "            return accum.remaining == 0 or not accum.ciphertext\n", "C44.13"),
+    M("until-accumulator-zeroed-when-nothing-produced", UP,
+      "            ciphertext_accum.extend(size, ct)\n",
+      "            ciphertext_accum.extend(size if ct else ciphertext_accum.remaining, ct)\n", "C44.13"),
+    M("benign-loop-ic-faithful", UP, OLD_READ_LOOP, IC_READ_LOOP % {"DEC": "size", "EXIT": "remaining == 0"}, None),
+    M("benign-loop-ic-faithful-not-remaining", UP, OLD_READ_LOOP, IC_READ_LOOP % {"DEC": "size", "EXIT": "not remaining"}, None),
+    M("benign-loop-ic-inlined-stops-at-plaintext-eof", UP, OLD_READ_LOOP, IC_READ_LOOP_INLINED % {"EOF": "plaintext"}, None),
+    M("benign-loop-ic-empty-ciphertext-ends-real-read-only", UP, OLD_READ_LOOP,
+      IC_READ_LOOP % {"DEC": "size", "EXIT": "remaining == 0 or (not hash_only and not ct)"}, None),
+    M("benign-until-condition-le-zero", UP,
+      "            return accum.remaining == 0\n", "            return accum.remaining <= 0\n", None),
+    M("benign-until-condition-via-local", UP,
+      "            return accum.remaining == 0\n", "            left = accum.remaining\n            return not left\n", None),
+    # the loop is no longer a recognisable loop: undecided, not silently passed
+    M("undecided-read-loop-by-recursion", UP,
+      "        d.addCallback(lambda ignored: until(action, condition))\n",
+      "        def again(ignored):\n            if condition():\n                return None\n"
+      "            return action().addCallback(again)\n        d.addCallback(lambda ignored: action().addCallback(again))\n",
+      "ANALYSIS-ERROR"),
     # -- vanished anchor
     M("vanish-start-reading", OFF, "    def _start_reading(self, res):", "    def _start_readingX(self, res):", "ANALYSIS-ERROR"),
 ]
